@@ -13,7 +13,7 @@ from .common import Inconclusive, Violation
 BACKENDS = ['t', 'mp', 'dill_mp', 'multiprocessing', 'concurrent_mp']
 
 
-def pool_task(x, delays=(), fails=None, log=None, salt=0):
+def pool_task(x, delays=(), fails=None, log=None, salt=0, vk=None):
     """x is ('v', i). Sleeps delays[i] ms (later tasks may finish first), appends start/end markers, may raise."""
     i = x[1]
     if log:
@@ -29,7 +29,7 @@ def pool_task(x, delays=(), fails=None, log=None, salt=0):
         fd = os.open(log, os.O_WRONLY | os.O_APPEND | os.O_CREAT)
         os.write(fd, f'end {i}\n'.encode())
         os.close(fd)
-    return ('r', i, salt)
+    return progs.value_of(vk, ('r', i, salt))
 
 
 class _Alarm:
@@ -59,7 +59,8 @@ def run_pool_case(case):
     tmp = tempfile.mkdtemp(prefix='verif_pool_')
     log = os.path.join(tmp, 'markers.log')
     salt = case.get('salt', 0)
-    fn = functools.partial(pool_task, delays=delays, fails=fails, log=log if case.get('markers') else None, salt=salt)
+    fn = functools.partial(pool_task, delays=delays, fails=fails, log=log if case.get('markers') else None, salt=salt,
+                           vk=case.get('vk'))
     out = {'delivered': [], 'exc': None, 'len': None, 'closed': False}
     try:
         with _Alarm(90):
@@ -142,7 +143,7 @@ def expected_pool(case):
                     None if catch is True else catch):
                 continue
             return out, i, e
-        v = ('r', i, case.get('salt', 0))
+        v = progs.token(progs.value_of(case.get('vk'), ('r', i, case.get('salt', 0))))
         out.append((f'k{i:02d}', v) if case.get('with_key') else v)
     return out, None, None
 
@@ -153,7 +154,7 @@ def judge_pool(case, out):
     stop = case.get('stop')
     if stop is not None and len(want) >= stop:
         want, pos, ename = want[:stop], None, None
-    got = out['delivered']
+    got = out['delivered'] = [progs.token(x) for x in out['delivered']]
     if got != want:
         sig = 'pool-delivered-wrong'
         if got == want[:len(got)] and len(got) < len(want):
@@ -205,6 +206,8 @@ def st_pool_case(draw, profile, backends=BACKENDS):
     n = draw(st.sampled_from([0, 1, 5, 12]))
     case = {'backend': be, 'api': api, 'n': n, 'workers': w, 'buffer': b, 'salt': draw(st.integers(0, 10 ** 6)),
             'delays': draw(st.lists(st.sampled_from([0, 0, 1, 2, 4, 8]), min_size=n, max_size=n))}
+    if draw(st.integers(0, 2)) == 0:
+        case['vk'] = draw(st.sampled_from(progs.VALUE_KINDS[1:]))
     if api in ('pm', 'pf') and draw(st.booleans()):
         if api == 'pf':
             case['src'] = 'dict'
